@@ -318,6 +318,28 @@ def rebuilt_from_table(repo, res):
             a = kwarg_of(calls[0], "add_default_symbols")
             ok = a is not None and isinstance(a, ast.Constant) and a.value is False
         res.check(ok, f"{q}:no-defaults", fn.where(), f"{q} rebuilds a registry from a saved table but lets the defaults overwrite it (add_default_symbols is not False): a modified built-in symbol is silently reset", "add_default_symbols=False", [norm(c) for c in calls], rid=r3)
+    # ... and the saved table IS complete: to_json writes one entry for every row of the table (from_json does not add
+    # the defaults, so a row that is left out is gone or - seen from a later default table - silently different)
+    tj = repo.mod(REG).func("UnitRegistry.to_json")
+    res.fn(tj)
+    loops = [n for n in tj.body if isinstance(n, ast.For) and norm(n.iter) in ("self.lut.items()", "self.lut", "self.lut.keys()")]
+    comps = [n for n in ast.walk(tj.node) if isinstance(n, ast.DictComp) and norm(n.generators[0].iter) in ("self.lut.items()", "self.lut", "self.lut.keys()")]
+    if len(loops) == 1 and not comps:
+        from engine.flow import enum_paths
+
+        kvar = norm(loops[0].target.elts[0]) if isinstance(loops[0].target, ast.Tuple) else norm(loops[0].target)
+        skipped = []
+        n_p = 0
+        for p_ in enum_paths(loops[0].body):
+            n_p += 1
+            stored = any(ev[0] == "stmt" and isinstance(ev[1], ast.Assign) and isinstance(ev[1].targets[0], ast.Subscript) and norm(ev[1].targets[0].slice) == kvar for ev in p_)
+            if not stored and p_[-1][0] != "raise":
+                skipped.append([f"{t}={tr}" for t, tr, _ in __import__("engine.flow", fromlist=["path_facts"]).path_facts(p_)])
+        res.check(n_p >= 1 and not skipped, "to_json:complete-table", tj.where(), "to_json leaves rows of the table out: from_json rebuilds the registry from the dump alone, so a re-defined built-in symbol comes back with another definition (or not at all)", "one entry per row of self.lut", skipped[:2], rid=r3)
+    elif len(comps) == 1 and not loops:
+        res.check(not comps[0].generators[0].ifs, "to_json:complete-table", tj.where(), "to_json filters the rows it writes", rid=r3)
+    else:
+        raise AnalysisError(f"{tj.where()}: how to_json walks the table is not understood")
     dc = repo.mod(REG).func("UnitRegistry.__deepcopy__")
     calls = [c for c in walk_no_nested(dc.node) if isinstance(c, ast.Call) and norm(c.func) == "type(self)"]
     us = kwarg_of(calls[0], "unit_system") if calls else None
@@ -355,4 +377,5 @@ MUTANTS = [
     Mutant("loadtxt-units-in-file-order", ARR, "loadtxt", "units = [units[col] for col in usecols]", "units = [unit for col, unit in enumerate(units) if col in usecols]", ("C11-R5",)),
     Mutant("loadtxt-units-atleast1d", ARR, "loadtxt", "units = [units[col] for col in usecols]", "units = [units[col] for col in np.atleast_1d(usecols)]", (), benign=True),
     Mutant("savetxt-skips-bare-arrays", ARR, "savetxt", "        else:\n            units.append(\"dimensionless\")\n", "", ("C11-R5",)),
+    Mutant("to-json-skips-default-names", REG, "UnitRegistry.to_json", "            san_v = list(v)\n", "            if k in default_unit_symbol_lut:\n                continue\n            san_v = list(v)\n", ("C11-R3",)),
 ]
